@@ -3,7 +3,7 @@ import ast
 import re
 from fractions import Fraction
 from ..front import dotted, const_value, unparse, walk_no_nested, parent_map, kwarg
-from ..core import holds, violation, unrecognised
+from ..core import holds, violation, unrecognised, named
 from .. import terms
 
 D = "deep_lift_shap"
@@ -114,7 +114,7 @@ def summation_identity(repo, t, fi):
     if any(a.startswith("?") for a in lhs.atoms()):
         return [unrecognised("R-TERM", fi, role, "opaque operators in the multiplier")]
     return [violation("R-TERM", fi, role, "multiplier * delta_in does not reduce to grad_output * delta_out", t["ret"],
-                      witness={"lhs": terms.canon(lhs)[:300], "rhs": terms.canon(rhs)[:300]})]
+                      semantic=terms.structural_difference(lhs, rhs), witness={"lhs": terms.canon(lhs)[:300], "rhs": terms.canon(rhs)[:300]})]
 
 
 def table_rule(repo, rule="R-TABLE"):
@@ -299,7 +299,7 @@ def hypothetical_rule(repo):
                                                   for x in ast.walk(n)):
                 pass
     if nonlin:
-        out.append(violation("LINEAR-REF", fi, role_lin, "the reference flows into `%s(...)`: the projection is only correct when every reference column is one-hot "
+        out.append(named("LINEAR-REF", fi, role_lin, "the reference flows into `%s(...)`: the projection is only correct when every reference column is one-hot "
                              "(fails for zero / uniform / frequency baselines)" % nonlin[0][1], nonlin[0][0],
                              witness={"references": "all-zeros or uniform 0.25 baseline", "effect": "attributions no longer sum to f(x) - mean f(ref)"}))
     else:
@@ -338,7 +338,7 @@ def hypothetical_rule(repo):
     elif v == "EQUAL":
         out.append(holds("R-TERM", fi, role, "stored term == sum((onehot(k) - references[0]) * multipliers[0], dim=1)", store))
     elif v == "DIFFERENT":
-        out.append(violation("R-TERM", fi, role, "stored term differs from the rule", store, witness={"got": terms.canon(got)[:300], "expected": terms.canon(exp)[:300]}))
+        out.append(violation("R-TERM", fi, role, "stored term differs from the rule", store, semantic=terms.structural_difference(got, exp), witness={"got": terms.canon(got)[:300], "expected": terms.canon(exp)[:300]}))
     else:
         out.append(unrecognised("R-TERM", fi, role, "opaque operators: %s" % sorted(te.opaque)[:3]))
     return out
